@@ -959,7 +959,21 @@ func (e *SpecEnv) evalCall(n *ast.CallExpr) *SV {
 			e.g.releaseFacts(captured)
 			return svBool(And(rng, body.V.L[0])) // witness constant
 		}
-		return svBool(Exists([]*Term{k}, And(rng, And(captured...), body.V.L[0])))
+		// witness hints: an instance of the body at a term in range implies the
+		// existential, so offering the range-loop indices in scope as disjuncts
+		// is an equivalence-preserving help for the solver
+		res := Exists([]*Term{k}, And(rng, And(captured...), body.V.L[0]))
+		for _, w := range e.g.rangeIndexTerms() {
+			he := e.clone()
+			he.vars[id.Name] = svInt(w)
+			he.vars[id.Name].V.T = types.Typ[types.Int]
+			hb := he.eval(n.Args[3])
+			if hb == nil {
+				continue
+			}
+			res = Or(res, And(Le(lo.V.L[0], w), Lt(w, hi.V.L[0]), hb.V.L[0]))
+		}
+		return svBool(res)
 	case "cat":
 		var parts []*SeqV
 		for i := range n.Args {
@@ -1275,6 +1289,15 @@ func (e *SpecEnv) evalCall(n *ast.CallExpr) *SV {
 			return nil
 		}
 		return svInt(StrLen(a.V.L[0]))
+	case "fnname":
+		// fnname(f): the (unqualified) name of the function or method a
+		// function value was made from; unconstrained for unknown values
+		a := arg(0)
+		if a == nil || len(a.V.L) != 1 {
+			e.fail("fnname(f): function value expected")
+			return nil
+		}
+		return &SV{V: scalar(types.Typ[types.String], App("fnname", SStr, a.V.L[0]))}
 	case "prefixof", "suffixof", "contains":
 		a, b := arg(0), arg(1)
 		if a == nil || b == nil {
@@ -1306,6 +1329,17 @@ func (e *SpecEnv) evalCall(n *ast.CallExpr) *SV {
 		return r
 	}
 	// uninterpreted spec function: uf_<name>(args) -> Int/Bool by suffix
+	if strings.HasPrefix(name, "ufs_") {
+		var as []*Term
+		for i := range n.Args {
+			a := arg(i)
+			if a == nil {
+				return nil
+			}
+			as = append(as, a.V.L...)
+		}
+		return &SV{V: scalar(types.Typ[types.String], App("spec."+name, SStr, as...))}
+	}
 	if strings.HasPrefix(name, "uf_") || strings.HasPrefix(name, "ufb_") {
 		var as []*Term
 		for i := range n.Args {
